@@ -36,6 +36,9 @@ type SimNet struct {
 	// onServerWrite is called (from the broker's writer goroutine) for every
 	// complete frame a broker writes, before any fault can touch it.
 	onServerWrite func(c *Conn, frame []byte)
+	// onClientWrite is called (from the writing client goroutine) for
+	// every complete frame a client writes, in the client's write order.
+	onClientWrite func(c *Conn, frame []byte)
 	dials         int64
 	nextOrd       map[string]int
 }
@@ -231,10 +234,17 @@ func (h *half) write(p []byte) (int, error) {
 		if !h.c2s && h.n.onServerWrite != nil {
 			written = append(written, data)
 		}
+		if h.c2s && h.n.onClientWrite != nil {
+			written = append(written, data)
+		}
 	}
 	h.mu.Unlock()
 	for _, d := range written {
-		h.n.onServerWrite(h.conn, d)
+		if h.c2s {
+			h.n.onClientWrite(h.conn, d)
+		} else {
+			h.n.onServerWrite(h.conn, d)
+		}
 	}
 	h.n.poke()
 	return len(p), nil
